@@ -46,6 +46,8 @@ def pool(cfg, A=10):
         H("h1", 1, p2, N, h0 + pd - 10, pd - 10),        # relative expiry too low
         H("h1", 1, p2, N - 1, h0 + pd + 30, pd + 30),    # declared total too low
         H("h1", 3, p2, N, h0 + pd + 30, pd + 30, decl=A, decl_len=-2),  # amountless + declared (conflicts with inv 1)
+        H("h1", 1, N, 0, h0 + pd + 30, pd + 30, fwd_amt=N - 1),     # no total_msat; the onion declares less than needed, the HTLC itself carries enough
+        H("h1", 1, p2, 0, h0 + pd + 30, pd + 30, fwd_amt=max(1, p2 - 1)),   # ... as one part of a set
         H("h1", 1, p2, N, h0 - 1, -1),                   # already expired when it is delivered (replayed late)
         H("h1", 1, N, N, h0 - min(70000, h0), -min(70000, h0)),   # ... long ago (by more than 65535 blocks where the height allows)
     ]
@@ -218,6 +220,10 @@ CLASS_INVS = [
     {"hash": "h1", "amt": 0, "hops": "OO,O,OL"},        # 18 three hints, local node last in the third
     {"hash": "h1", "amt": CLASS_A, "hops": "L,O"},      # 19 the first of two is a self route hint
     {"hash": "h1", "amt": CLASS_A, "hops": "LO,O"},     # 20 two hints, local node only first in one of them (no self hint)
+    {"hash": "h1", "amt": CLASS_A, "form": "mixedcase"},  # 21 one upper-case character: not a valid bech32 string
+    {"hash": "h1", "amt": 0, "form": "mixedcase"},      # 22
+    {"hash": "h1", "amt": CLASS_A, "form": "noncanon"}, # 23 valid, but not the canonical text of its fields
+    {"hash": "h1", "amt": 0, "form": "noncanon"},       # 24
 ]
 
 def class_cases():
@@ -533,5 +539,37 @@ def write_fault_jobs(start_run=1, probes=0):
                               X({"kind": "lists", "hash": "h1", "status": "complete"}), D({"kind": "lists", "hash": "h1", "status": "complete"})]
                     s += [{"a": "tick"}] * (cfg["mpp"] + 1)
                     jobs.append({"run": run, "scen": sc, "sched": s, "drain": True, "probes": probes, "tag": "directed:write_fault"})
+                    run += 1
+    return jobs
+
+
+# ---------------------------------------------------------------------------------------------
+# Directed schedules for the provider (C15, C16): a pay command that leaves many parts behind (more than any window or
+# batch a waiting loop might use); all but one fail with part-level codes, one completes - first, in the middle, or last.
+def many_parts_jobs(start_run=1):
+    jobs = []
+    run = start_run
+    cfg = dict(CFG_A)
+    payc = {"kind": "pay", "hash": "h1"}
+    X = lambda sel, fault="none": {"a": "exec", "sel": sel, "fault": fault}
+    D = lambda sel: {"a": "deliver", "sel": sel}
+    for n in (9, 12, 17):
+        for winner in (1, n // 2, n, 0):
+            for outcome in ("pending", "error", "failed_warn"):
+                for xpay in (False, True):
+                    sc = {"cfg": dict(cfg, xpay=xpay), "invs": invs_for(10), "htlcs": [], "probe": []}
+                    s = [{"a": "paycall", "hash": "h1", "inv": 1}, X(payc)]
+                    s += [{"a": "paypart", "sel": payc}] * n
+                    s += [{"a": "payreturn", "sel": payc, "outcome": outcome}, D(payc),
+                          X({"kind": "lists", "hash": "h1", "status": "pending"}), D({"kind": "lists", "hash": "h1", "status": "pending"}),
+                          X({"kind": "lists", "hash": "h1", "status": "complete"}), D({"kind": "lists", "hash": "h1", "status": "complete"})]
+                    order = [p for p in range(1, n + 1) if p != winner] + ([winner] if winner else [])
+                    codes = [202, 203, 204, 208, 209]
+                    for k, p in enumerate(order):
+                        how = "complete" if p == winner else "failed"
+                        s += [{"a": "partdone", "p": p, "how": how, "code": codes[k % 5]},
+                              X({"kind": "wait", "hash": "h1", "part": p}), D({"kind": "wait", "hash": "h1", "part": p})]
+                    jobs.append({"run": run, "scen": sc, "sched": s, "drain": True, "tag": "directed:many_parts",
+                                 "rand": {"seed": run, "steps": 0, "direct": 1, "maxparts": n}})
                     run += 1
     return jobs
